@@ -456,6 +456,22 @@ class Sim:
             out.append(describe_callback(h._callback))  # noqa: SLF001
         return sorted(out)
 
+    def live_timers_owned_by(self, owners: tuple[Any, ...]) -> list[str]:
+        """Armed timers whose callback is a bound method of one of `owners` (used when several sessions share the loop and a timer can
+        only be charged to a closed connection if it demonstrably belongs to it)."""
+        import functools
+
+        out = []
+        for h in self.loop._scheduled:  # noqa: SLF001
+            if h._cancelled:  # noqa: SLF001
+                continue
+            cb = h._callback  # noqa: SLF001
+            while isinstance(cb, functools.partial):
+                cb = cb.func
+            if any(getattr(cb, "__self__", None) is o for o in owners if o is not None):
+                out.append(describe_callback(h._callback))  # noqa: SLF001
+        return sorted(out)
+
     def pending_tasks(self) -> list[str]:
         out = []
         for t in asyncio.all_tasks(self.loop):
